@@ -1333,18 +1333,23 @@ class TransactionEvaluator:
             raise ExpressionError("Only simple loop variables supported")
 
         for item in iterable:
+            had_value = var_name in self._scope
             old_value = self._scope.get(var_name)
             self._scope[var_name] = item
 
-            conditions_pass = all(self.evaluate(if_clause) for if_clause in comp.ifs)
+            try:
+                conditions_pass = all(self.evaluate(if_clause) for if_clause in comp.ifs)
 
-            if conditions_pass:
-                yield from self._generator_helper(generators, index + 1, element_expr)
-
-            if old_value is None:
-                self._scope.pop(var_name, None)
-            else:
-                self._scope[var_name] = old_value
+                if conditions_pass:
+                    yield from self._generator_helper(generators, index + 1, element_expr)
+            finally:
+                # Also runs when the consumer stops early (next(), any(), all()) and the
+                # suspended generator is discarded: the loop variable must not stay
+                # visible to the rest of the expression
+                if had_value:
+                    self._scope[var_name] = old_value
+                else:
+                    self._scope.pop(var_name, None)
 
     def _eval_Subscript(self, node: ast.Subscript) -> Any:
         """Evaluate list[index] access."""
